@@ -61,6 +61,39 @@ static SPECS: &[PropertySpec] = &[
         assumptions: &["debatable spellings ('+n', 'n, n', bad Content-Length next to chunked or on a must-be-empty response) are don't-care", "the decision itself is a pure function of the head; the simulator supplies delivery schedule, the silent peer and the virtual clock"],
     },
     PropertySpec {
+        id: "C04",
+        scenario: props::c04::scenario,
+        level: "exploration",
+        rule: "generated heads: status 100..999, any reason phrase / version token, 0..max_headers+1 fields (max_headers itself drawn: 0, 1, small, medium, default; exactly-at-limit and limit+1 targeted), names over the token alphabet in random case with duplicates, values over VCHAR/SP/HTAB/obs-text/empty with surrounding spaces and bare-LF continuations, heads larger than the 8 KiB buffer, single lines up to 15 KB; every segmentation class applied to the head; distinct = (status class, version, field-count class, limit class, big, TE, segmentation, accessor); non-trivial = at least one field",
+        quick_runs: 6000,
+        thorough_runs: 300_000,
+        real_components: REAL,
+        stubbed_components: STUB,
+        assumptions: &["HTAB trimming and invalid header names are not demanded", "lines stay below the 16 KiB line limit (beyond it is C05's concern)"],
+    },
+    PropertySpec {
+        id: "C05",
+        scenario: props::c05::scenario,
+        level: "exploration",
+        rule: "three generators feeding the response read path: (a) strings of up to 14 items over {digits, hex letters, ';', ':', SP, CR, LF, '+', '-', other, CRLF, status line} as the whole response or as a chunked body; (b) 1..4 mutations (bit flip, deletion, duplication, numeric blow-up to 2^31/2^32/2^63/2^64-1/2^64, splice, truncation) of a valid response; (c) 'endless' streams (0.5-2 MiB) for a status line without end, a header line without end, header fields without end, bare-LF continuation without end, a chunk-size line without end, and a gzip bomb; random segmentation, FIN/RST/stall endings, EINTR, 0..4 re-reads after errors; oracles: no panic, termination (event cap, deadlock detection, real-time hang monitor), bounded bytes pulled from the transport per construct, allocation monitor (largest request, peak live, hard cap 1 GiB); distinct = (generator kind, method, ending, segmentation, reread, read size, eintr); every run non-trivial",
+        quick_runs: 6000,
+        thorough_runs: 300_000,
+        real_components: REAL,
+        stubbed_components: STUB,
+        assumptions: &["allocation failure cannot be injected (Rust aborts): sizes are monitored instead, requests above 1 GiB are refused and the abort is attributed to the run by the wrapper", "sampled, not exhaustive, over the small alphabet (exhaustive enumeration would be model checking)", "CONNECT refusal bodies are covered by C12"],
+    },
+    PropertySpec {
+        id: "C06",
+        scenario: props::c06::scenario,
+        level: "exploration",
+        rule: "payload classes (empty, position-dependent text, random, framing look-alikes, highly repetitive, > 64 KiB) compressed by the harness with flate2 encoders at levels 0..9 (stored / fixed / dynamic blocks), gzip members with hand-written FEXTRA/FNAME/FCOMMENT headers; declared as Content-Encoding (any case, in a list) or as a transfer coding before chunked; unknown codings and no coding for the pass-through half; every framing, segmentation and read schedule of C01; damage family: truncation of the compressed stream at an offset class, single-bit flips in the gzip trailer; distinct = (coding, framing, level, label, damage, allow_compression, segmentation, plan shape); non-trivial = a coding is declared",
+        quick_runs: 5000,
+        thorough_runs: 250_000,
+        real_components: REAL,
+        stubbed_components: STUB,
+        assumptions: &["deflate means raw DEFLATE as in the repository's own test_stream_deflate", "a raw deflate stream truncated after its last data byte carries no evidence of the cut (no checksum) and is not demanded to fail", "multi-member gzip and bytes after the member are not demanded"],
+    },
+    PropertySpec {
         id: "C07",
         scenario: props::c07::scenario,
         level: "exploration",
@@ -138,6 +171,17 @@ static SPECS: &[PropertySpec] = &[
         assumptions: &["attempts that would accept only after a deadline-clamped expiry are a don't-care zone", "losers of the race may live until their own connect timeout"],
     },
     PropertySpec {
+        id: "C18",
+        scenario: props::c18::scenario,
+        level: "exploration",
+        rule: "bodies: text in 8 scripts re-encoded into each of the 38 exported charsets, truncated and damaged multi-byte sequences, random bytes, BOM-prefixed bodies (split-independence half only); Content-Type absent / without charset / with a known label in upper, lower or mixed case with or without the blank / unknown or empty label; default charset set or not; text, text_with, text_utf8, text_reader, text_reader_with with read sizes 1 B .. 9 KB; every framing, chunking and segmentation of C01; expected = one-shot encoding_rs decode of the whole payload with the charset chosen by the stated precedence; distinct = (API, body kind, header class, default, selected charset, plan shape); non-trivial = several delivery segments or a streaming reader",
+        quick_runs: 6000,
+        thorough_runs: 300_000,
+        real_components: REAL,
+        stubbed_components: STUB,
+        assumptions: &["BOM-prefixed bodies are compared between two runs of the library (split vs whole), not against the one-shot decoder", "the charset parameter name is lower-case and the only parameter (other spellings are not demanded)"],
+    },
+    PropertySpec {
         id: "C19",
         scenario: props::c19::scenario,
         level: "exploration",
@@ -164,6 +208,18 @@ fn main() {
         Some("run") => cmd_run(&args[2..]),
         Some("replay") => cmd_replay(&args[2..]),
         Some("selftest-determinism") => cmd_determinism(&args[2..]),
+        Some("mkreplay") => {
+            // mkreplay <ID> <seed> <index> <class> [thorough]
+            let id = args.get(2).cloned().unwrap_or_default();
+            let seed = args.get(3).and_then(|s| s.parse().ok()).unwrap_or(0);
+            let idx = args.get(4).and_then(|s| s.parse().ok()).unwrap_or(0);
+            let class = args.get(5).cloned().unwrap_or_else(|| "abort".into());
+            let thorough = args.get(6).map(|s| s == "thorough").unwrap_or(false);
+            let p = runner::write_seed_replay(&id, seed, idx, thorough, &class, "the process aborted while executing this run");
+            println!("violation class={} run_index={}", class, idx);
+            println!("VIOLATION property={} replay={}", id, p);
+            1
+        }
         Some("list") => {
             for s in SPECS {
                 println!("{}", s.id);
@@ -266,6 +322,17 @@ fn cmd_replay(args: &[String]) -> i32 {
     let Some(path) = args.first() else { return 2 };
     let trace = args.iter().any(|a| a == "--trace");
     let quiet = args.iter().any(|a| a == "--quiet");
+    // a replayed hang must terminate too
+    {
+        let path = path.clone();
+        std::thread::spawn(move || {
+            std::thread::sleep(std::time::Duration::from_secs(runner::HANG_SECS));
+            println!("replay: violation class=hang:no-kernel-event (did not finish within {} s)", runner::HANG_SECS);
+            let id = path.rsplit('/').next().unwrap_or("").split('-').next().unwrap_or("").to_string();
+            println!("VIOLATION property={} replay={}", id, path);
+            std::process::exit(1);
+        });
+    }
     match runner::replay_file(&spec_for, path, trace) {
         Err(e) => {
             eprintln!("replay error: {}", e);
